@@ -118,6 +118,17 @@ def pool(objectives, shapes=("plain", "optional", "select", "variable", "buffer"
             bf = b.buffer("Bf", initial=1, lower=0)
             b.unload(a, bf, 1)
             b.load(c, bf, 2)
+        elif shape == "buffer-final":
+            a, c, w = _two_on_worker(b)
+            ws = [w]
+            bf = b.buffer("Bf", initial=1, final=2, lower=0)
+            b.unload(a, bf, 1)
+            b.load(c, bf, 2)
+        elif shape == "free-horizon":
+            # no user horizon: every solution reports its own horizon, never before the end of its last task
+            b = PB(H, user_horizon=False, tag=f"{shape}/{on}")
+            a, c, w = _two_on_worker(b)
+            ws = [w]
         elif shape == "infeasible":
             a, c, w = _two_on_worker(b)
             ws = [w]
@@ -129,9 +140,9 @@ def pool(objectives, shapes=("plain", "optional", "select", "variable", "buffer"
             w = b.worker("W", cost=1)
             b.require(a, worker=w)
             ws = [w]
-        if on == "cost" and shape in ("plain", "optional", "buffer", "infeasible"):
+        if on == "cost" and shape in ("plain", "optional", "buffer", "infeasible", "buffer-final", "free-horizon"):
             continue
-        if on in ("max_buffer", "min_buffer") and shape != "buffer":
+        if on in ("max_buffer", "min_buffer") and shape not in ("buffer", "buffer-final"):
             continue
         if on in ("min_lateness", "min_tardiness", "min_earliness") and shape in ("optional", "infeasible"):
             continue   # (an extremum over an unscheduled task is an open corner)
